@@ -112,6 +112,9 @@ def r1_r4(run: Run, rt):
     return reach
 
 
+IMAGES: dict = {}
+
+
 def by_operator_table(fn: ast.FunctionDef):
     """operator string -> (python comparison op type, left name, right name) ; default behaviour"""
     params = [a.arg for a in fn.args.args if a.arg != 'self']
@@ -121,12 +124,26 @@ def by_operator_table(fn: ast.FunctionDef):
     table = {}
     default = None
 
+    def image(e):
+        """(operand name, name of the transformation applied to it or None): x, f(x), self.f(x), x.m()"""
+        if isinstance(e, ast.Name):
+            return e.id, None
+        if isinstance(e, ast.Call) and len(e.args) == 1 and not e.keywords and isinstance(e.args[0], ast.Name):
+            return e.args[0].id, ast.unparse(e.func)
+        if isinstance(e, ast.Call) and not e.args and isinstance(e.func, ast.Attribute) and isinstance(e.func.value, ast.Name):
+            return e.func.value.id, '.' + e.func.attr
+        return None, None
+
     def ret_cmp(stmts):
         if len(stmts) == 1 and isinstance(stmts[0], ast.Return) and isinstance(stmts[0].value, ast.Compare) and \
                 len(stmts[0].value.ops) == 1:
             c = stmts[0].value
             if isinstance(c.left, ast.Name) and isinstance(c.comparators[0], ast.Name):
                 return (type(c.ops[0]), c.left.id, c.comparators[0].id)
+            (l, lt), (r, rt_) = image(c.left), image(c.comparators[0])
+            if l is not None and r is not None and lt == rt_:
+                IMAGES[len(IMAGES)] = (type(c.ops[0]), lt)
+                return (type(c.ops[0]), l, r)
         if len(stmts) == 1 and isinstance(stmts[0], ast.Return) and isinstance(stmts[0].value, ast.UnaryOp) and \
                 isinstance(stmts[0].value.op, ast.Not) and isinstance(stmts[0].value.operand, ast.Compare):
             c = stmts[0].value.operand
@@ -204,7 +221,22 @@ def r2(run: Run, src, rt):
         if fn is None:
             run.bad('C10.R2', f'_by_operator[{cp.label}]', 'missing', 'the operator table does not exist', loc=cp.path)
             continue
+        IMAGES.clear()
         table, default, (opn, ln, rn) = by_operator_table(fn)
+        # the six comparisons must look at the same image of their operands: if = and <> compare lower-cased texts while the
+        # ordering operators compare the raw texts, "a" = "A" and "a" > "A" both hold and trichotomy is lost
+        transformed = {t for _, t in IMAGES.values()}
+        if transformed:
+            n_plain = len(table) - len(IMAGES)
+            if n_plain > 0 or len(transformed) > 1:
+                ops = sorted(_sym(o) for o, _ in IMAGES.values())
+                run.bad('C10.R2', '_by_operator/operand image', 'inconsistent-operand-image',
+                        f'_by_operator compares {sorted(transformed)} of its operands for {ops} but the operands themselves (or another '
+                        f'image) for the other operators: equality and ordering then disagree (two operands can be equal and one of them '
+                        f'greater), so exactly-one-of <, =, > no longer holds', loc=cp.loc(fn))
+            else:
+                run.ok('C10.R2', f'_by_operator[{cp.label}]/operand image', f'all cases compare {sorted(transformed)} of both operands',
+                       loc=cp.loc(fn))
         for excel_op, py in sorted(emitted.items()):
             construct = f'_by_operator[{cp.label}]/{excel_op}'
             if py not in table:
